@@ -169,7 +169,7 @@ def run_case(case):
     elif fam == 'matrix_misc':
         kind = rng.choice(['concatenate', 'unpivot', 'set_type', 'find_replace', 'duplicate_alias', 'load_csv',
                            'twin_isolation', 'twin_isolation', 'rename_chain', 'multi_then_single',
-                           'multi_then_single'])
+                           'multi_then_single', 'pk_then_field_op'])
         if kind == 'concatenate':
             ftyp = rng.choice(sorted(TYPED))
             a = typed_table(rng, [('v', ftyp)], 3)
@@ -230,6 +230,28 @@ def run_case(case):
                                                      regex=False, resources=which)}[opk]()
             mk = lambda e: [lab.source('t', fl, rows), d.duplicate('t', 't2', duplicate_to_end=to_end), twin_step()]  # noqa
             label = 'twin_isolation/%s/%s' % (opk, 'copy' if which == 't2' else 'original')
+        elif kind == 'pk_then_field_op':
+            # a field-level step touches a primary-key field: the emitted primaryKey must keep naming declared fields
+            rows = [{'id': i, 'v': i % 3, 'w': 'abc'[i % 3], 'x': i * 2} for i in range(rng.choice([1, 6, 30]))]
+            fl = [{'name': 'id', 'type': 'integer'}, {'name': 'v', 'type': 'integer'}, {'name': 'w', 'type': 'string'},
+                  {'name': 'x', 'type': 'integer'}]
+            pk = rng.choice([['id'], ['id', 'v'], ['v', 'id'], ['w', 'id']])
+            opk = rng.choice(['rename_fields', 'delete_fields', 'select_fields', 'unpivot', 'rename_other'])
+            tail = rng.choice(['none', 'deduplicate'])
+            kf = pk[0] if pk[0] != 'id' else (pk[-1] if len(pk) > 1 else 'id')
+
+            def pk_step():
+                return {'rename_fields': lambda: d.rename_fields({kf: 'KEY'}, regex=False),
+                        'rename_other': lambda: d.rename_fields({'x': 'X'}, regex=False),
+                        'delete_fields': lambda: d.delete_fields([kf], regex=False),
+                        'select_fields': lambda: d.select_fields([n for n in ('id', 'v', 'w', 'x') if n != kf] if kf != 'id'
+                                                                 else ['v', 'w', 'x'], regex=False),
+                        'unpivot': lambda: d.unpivot([{'name': 'v', 'keys': {'k': 'V'}}, {'name': 'x', 'keys': {'k': 'X'}}],
+                                                     [{'name': 'k', 'type': 'string'}], {'name': 'val', 'type': 'integer'},
+                                                     regex=False)}[opk]()
+            mk = lambda e: [lab.source('t', fl, rows), d.set_primary_key(list(pk)), pk_step()] + \
+                ([d.deduplicate()] if tail == 'deduplicate' else [])                               # noqa: E731
+            label = 'pk_then_field_op/%s/%s' % (opk, tail)
         elif kind == 'rename_chain':
             rows = typed_table(rng, [('a', 'integer'), ('b', 'string'), ('c', 'number')], 6)
             fl = [{'name': 'id', 'type': 'integer'}, {'name': 'a', 'type': 'integer'}, {'name': 'b', 'type': 'string'},
